@@ -9,6 +9,8 @@ from gmsa.inline import fingerprint, digest
 root = sys.argv[1] if len(sys.argv) > 1 else "/repo"
 out = {}
 dig = {}
+consts = []
+backing_reads = []
 for dp, dn, fn in os.walk(os.path.join(root, "gaddlemaps")):
     dn[:] = sorted(d for d in dn if d not in ("__pycache__", "data"))
     for f in sorted(fn):
@@ -20,6 +22,23 @@ for dp, dn, fn in os.walk(os.path.join(root, "gaddlemaps")):
             rel = rel[:-9]
         tree = ast.parse(open(p).read())
         for st in tree.body:
+            if isinstance(st, (ast.Assign, ast.AnnAssign)):
+                for t in (st.targets if isinstance(st, ast.Assign) else [st.target]):
+                    if isinstance(t, ast.Name):
+                        consts.append("%s:%s" % (rel, t.id))
+            if isinstance(st, ast.ClassDef):
+                # private attributes read outside a property of their own name (self._x read in a method other than `x`)
+                for s2 in st.body:
+                    if isinstance(s2, (ast.FunctionDef, ast.AsyncFunctionDef)):
+                        for x in ast.walk(s2):
+                            if isinstance(x, ast.Attribute) and isinstance(x.ctx, ast.Load) and isinstance(x.value, ast.Name) and x.value.id == "self" \
+                                    and x.attr.startswith("_") and x.attr[1:] != s2.name:
+                                backing_reads.append("%s:%s.%s" % (rel, st.name, x.attr))
+                for s2 in st.body:
+                    if isinstance(s2, (ast.Assign, ast.AnnAssign)):
+                        for t in (s2.targets if isinstance(s2, ast.Assign) else [s2.target]):
+                            if isinstance(t, ast.Name):
+                                consts.append("%s:%s.%s" % (rel, st.name, t.id))
             if isinstance(st, (ast.FunctionDef, ast.AsyncFunctionDef)):
                 out.setdefault("%s:%s" % (rel, st.name), fingerprint(st))
                 dig.setdefault("%s:%s" % (rel, st.name), []).append(digest(st))
@@ -32,6 +51,6 @@ for dp, dn, fn in os.walk(os.path.join(root, "gaddlemaps")):
                             out[k]["idents"] = sorted(set(out[k]["idents"]) | set(fingerprint(s2)["idents"]))
                         else:
                             out[k] = fingerprint(s2)
-json.dump({"comment": "functions of the reference tree; see gmsa/inline.py", "functions": sorted(out), "fingerprints": out, "digests": dig},
+json.dump({"comment": "functions of the reference tree; see gmsa/inline.py", "functions": sorted(out), "fingerprints": out, "digests": dig, "constants": sorted(consts), "backing_reads": sorted(set(backing_reads))},
           open(os.path.join(os.path.dirname(os.path.dirname(os.path.abspath(__file__))), "gmsa", "known_functions.json"), "w"), indent=0, sort_keys=True)
 print(len(out), "functions")
